@@ -2,8 +2,8 @@
 EXTENDS JetExpr
 cBinOps == {"+", "-", "*", "/", "%", "<", "<=", ">", ">=", "==", "!=", "&&", "||"}
 cShapesQ == {"U", "B1", "L2", "R2", "NEGL", "NEGR", "NEG3", "NOTB", "NOTL", "T1", "T2R", "T2L"}
-cPoolQ == {"iv7", "iv2", "in3", "f15", "f32v", "u7", "ss", "bt", "pf", "pt"}
+cPoolQ == {"iv7", "iv2", "in3", "f15", "f1", "chr", "f32v", "u7", "ss", "bt", "pf", "pt"}
 cShapesT == cShapesQ \cup {"L3"}
-cPoolT == {"iv7", "iv2", "in3", "iv1", "f15", "f1", "fv025", "ss", "se", "bt", "bf", "pt", "pf", "pi", "idx", "call", "paren", "fld", "cfld", "f32v", "u7"}
-cPoolU == {"iv7", "iv2", "in3", "iv1", "f15", "f2", "f1", "fv025", "ss", "sv", "se", "bt", "bf", "bv", "pt", "pf", "pi", "idx", "call", "paren", "fld", "cfld", "f32v", "u7", "u8v"}
+cPoolT == {"iv7", "iv2", "in3", "iv1", "f15", "f1", "fv025", "ss", "se", "bt", "bf", "pt", "pf", "pi", "idx", "call", "paren", "fld", "cfld", "f32v", "u7", "chr"}
+cPoolU == {"iv7", "iv2", "in3", "iv1", "f15", "f2", "f1", "fv025", "ss", "sv", "se", "bt", "bf", "bv", "pt", "pf", "pi", "idx", "call", "paren", "fld", "cfld", "f32v", "u7", "u8v", "chr"}
 =============================================================================
